@@ -40,6 +40,7 @@ class Node:
 
 
 Edge = tuple[int, int, str]
+PATH_SENSITIVE_REACH = None  # set by xsa.q (reach_env): reachability that tracks the None-ness / truthiness of flag-like locals
 
 
 class CFG:
@@ -148,6 +149,10 @@ class CFG:
         be = [(test_node, m, l) for m, l in self.succ[test_node] if l == lab]
         if not be:
             return False
+        if PATH_SENSITIVE_REACH is not None:
+            # flag-like locals (result slots of inlined helpers, found = False / True) are followed along the path: a branch that
+            # contradicts what the path assigned is not a way to reach the target
+            return target not in PATH_SENSITIVE_REACH(self, None, be)
         return target not in self.reachable([self.entry], blocked_edges=be)
 
     def reach_assuming(self, decide: Callable[[Node], bool | None]) -> set[int]:
@@ -162,6 +167,8 @@ class CFG:
                 continue
             drop = "false" if d else "true"
             be += [(n.id, m, l) for m, l in self.succ[n.id] if l == drop]
+        if PATH_SENSITIVE_REACH is not None:
+            return PATH_SENSITIVE_REACH(self, None, be)
         return self.reachable([self.entry], blocked_edges=be)
 
     def stmts(self) -> Iterator[Node]:
